@@ -875,11 +875,36 @@ impl Model {
             Stmt::Update { table, set, pred } => {
                 let ti = self.find_table(t, table).ok_or(ErrClass::Bind)?;
                 let def = self.def_for(t, &self.tables[ti]).clone();
+                let targets: Vec<(usize, Vec<Val>)> = self.visible_rows(t, ti);
                 if !def.uniques.is_empty() {
+                    // An UPDATE of a table with a unique index is a listed finding once it WRITES (the index keeps the old
+                    // key). An UPDATE that addresses exactly one row and must be refused - its new key is held by another
+                    // visible row - is refused by the validation that runs before anything is written: judged.
+                    let mut hit = vec![];
+                    for (i, v) in &targets {
+                        if Self::matches(&def, pred, v)? {
+                            hit.push((*i, v.clone()));
+                        }
+                    }
+                    if hit.len() == 1 {
+                        let (i, v) = hit[0].clone();
+                        let mut nv = v.clone();
+                        for (c, x) in set {
+                            let ci = def.col_idx(c).ok_or(ErrClass::Bind)?;
+                            nv[ci] = x.clone();
+                        }
+                        if Self::check_row_shape(&def, &nv).is_ok() {
+                            let before = self.taint.len();
+                            if let Err(ErrClass::Unique) = self.check_unique(t, ti, &def, &nv, Some(i)) {
+                                if self.taint.len() == before {
+                                    return Err(ErrClass::Unique);
+                                }
+                            }
+                        }
+                    }
                     self.hazard(KF_UPDATE_UNIQUE_TABLE);
                 }
                 let mut n = 0;
-                let targets: Vec<(usize, Vec<Val>)> = self.visible_rows(t, ti);
                 for (i, v) in targets {
                     if Self::matches(&def, pred, &v)? {
                         let mut nv = v.clone();
